@@ -61,6 +61,7 @@ package p2p
 //@   atcall VerifyBytes set gVerifiedKey = arg_recv
 //@   onwrite SecretConnection.remPubKey assert [identity-is-the-key-that-signed-the-challenge] gChallengeOK && newval == gVerifiedKey
 //@   ensures  [no-connection-without-authentication] result0 != nil ==> result1 == nil && calls(VerifyBytes) == 1 && gChallengeOK
+//@   ensures  [success-returns-a-connection] result1 == nil ==> result0 != nil
 
 // ---------------------------------------------------------------------------------------------
 // multiplexed channels: packets of at most 1024 bytes, reassembled up to the channel's capacity
@@ -80,3 +81,84 @@ package p2p
 //@   ensures  [over-capacity-is-rejected-unchanged] old(ch.desc.RecvMessageCapacity) < old(len(ch.recving)) + len(packet.Bytes) ==> result1 != nil && result0 == nil && ch.recving == old(ch.recving)
 //@   ensures  [eof-returns-the-whole-message] old(ch.desc.RecvMessageCapacity) >= old(len(ch.recving)) + len(packet.Bytes) && packet.EOF == 1 ==> result1 == nil && len(result0) == old(len(ch.recving)) + len(packet.Bytes) && len(ch.recving) == 0
 //@   ensures  [non-eof-accumulates] old(ch.desc.RecvMessageCapacity) >= old(len(ch.recving)) + len(packet.Bytes) && packet.EOF != 1 ==> result1 == nil && result0 == nil && len(ch.recving) == old(len(ch.recving)) + len(packet.Bytes)
+
+// handshake helpers (bodies use nacl and goroutines; assumed)
+//@ func shareAuthSignature
+//@   trusted
+//@   assigns allbut(SecretConnection)
+//@   ensures result1 == nil ==> result0 != nil
+//@ func shareEphPubKey
+//@   trusted
+//@   assigns nothing
+//@   ensures err == nil ==> remEphPub != nil
+//@ func genEphKeys
+//@   trusted
+//@   assigns nothing
+//@   ensures ephPub != nil && ephPriv != nil
+//@ func computeSharedSecret
+//@   trusted
+//@   assigns nothing
+//@   ensures shrSecret != nil
+//@ func sort32
+//@   trusted
+//@   pure
+//@   ensures lo != nil && hi != nil
+//@ func genNonces
+//@   trusted
+//@   assigns nothing
+//@   ensures recvNonce != nil && sendNonce != nil && recvNonce != sendNonce
+//@ func genChallenge
+//@   trusted
+//@   assigns nothing
+//@   ensures challenge != nil
+//@ func signChallenge
+//@   trusted
+//@   pure
+
+// ---------------------------------------------------------------------------------------------
+// admission of peers (C20)
+
+//@ ghost gAuthErr Iface
+//@ func peerHandshake
+//@   props C20
+//@   requires conn != nil && sw != nil
+//@   atcall AuthByCA set gAuthErr = result
+//@   atcall AuthByCA assert [authority-check-on-the-received-node-info] arg_peerInfo == peerNodeInfo
+//@   ensures  [no-node-info-without-authority-check] result1 == nil ==> calls(AuthByCA) == 1 && gAuthErr == nil && result0 != nil
+
+//@ ghost gRefuseErr Iface
+//@ ghost gPubKeyErr Iface
+//@ ghost gHandshakeErr Iface
+//@ ghost gEqFirst Bool
+//@ ghost gEqSecond Bool
+//@ func (*Switch).AddPeerWithConnection
+//@   props C20
+//@   requires sw != nil && conn != nil && sw.config != nil && sw.nodeInfo != nil && sw.peers != nil && sw.nodePrivKey != nil && !typeIs(conn, *SecretConnection)
+//@   aborts when [transport-authentication-disabled-by-configuration] calls(MakeSecretConnection) == 0 && calls(GetBool) >= 1
+//@   atcall FilterConnByRefuselist set gRefuseErr = result
+//@   atcall FilterConnByPubKey set gPubKeyErr = result
+//@   atcall peerHandshake set gHandshakeErr = result1
+//@   atcall Equals set gEqFirst = ite(calls(Equals) == 1, result, gEqFirst)
+//@   atcall Equals set gEqSecond = ite(calls(Equals) == 2, result, gEqSecond)
+//@   atcall newPeer assert [admitted-only-after-every-filter] calls(FilterConnByRefuselist) == 1 && gRefuseErr == nil && calls(FilterConnByPubKey) == 1 && gPubKeyErr == nil && calls(peerHandshake) == 1 && gHandshakeErr == nil
+//@   atcall newPeer assert [announced-key-is-the-authenticated-key-and-not-ours] calls(Equals) == 2 && gEqFirst && !gEqSecond
+//@   ensures  [no-peer-without-admission] result0 != nil ==> calls(newPeer) == 1 && result1 == nil
+
+// filters installed by the embedding node (function values; assumed not to modify the switch)
+//@ func (*Switch).FilterConnByAddr
+//@   trusted
+//@   assigns nothing
+//@ func (*Switch).FilterConnByRefuselist
+//@   trusted
+//@   assigns nothing
+//@ func (*Switch).FilterConnByPubKey
+//@   trusted
+//@   assigns nothing
+//@ func (*Switch).AuthByCA
+//@   trusted
+//@   assigns nothing
+//@ func (*SecretConnection).RemotePubKey
+//@   props C20
+//@   requires sc != nil
+//@   pure
+//@   ensures result == sc.remPubKey
